@@ -86,6 +86,13 @@ type c17Fn struct {
 	recv   *c17V
 	native func(m *c17M, args []c17V) c17V
 	name   string
+	// function literal (closure): the literal, the package it was written in and the variables in scope where it
+	// was evaluated (cells are shared with the defining frame: captured by reference)
+	lit    *ast.FuncLit
+	litPkg *packages.Package
+	env    map[types.Object]*c17V
+	// method expression T.m / (*T).m: the first argument is the receiver
+	mexpr bool
 }
 
 func c17I(i int64) c17V         { return c17V{k: c17Int, i: i} }
@@ -282,11 +289,6 @@ func (m *c17M) newFrame(pk *packages.Package) *c17Frame {
 
 // callDecl interprets a declared function. recv is the value bound to the receiver name.
 func (m *c17M) callDecl(fi *FuncInfo, recv *c17V, args []c17V) []c17V {
-	m.depth++
-	defer func() { m.depth-- }()
-	if m.depth > 40 {
-		m.unsupported("call depth exceeded in %s", fi.Name)
-	}
 	fd := fi.Decl
 	if fd.Body == nil {
 		m.unsupported("%s has no body", fi.Name)
@@ -296,8 +298,27 @@ func (m *c17M) callDecl(fi *FuncInfo, recv *c17V, args []c17V) []c17V {
 		rv := *recv
 		fr.env[fr.info.Defs[fd.Recv.List[0].Names[0]]] = &rv
 	}
+	return m.callBody(fr, fi.Name, fd.Type, fd.Body, args)
+}
+
+// callLit interprets a function literal in the environment it captured.
+func (m *c17M) callLit(fn *c17Fn, args []c17V) []c17V {
+	fr := m.newFrame(fn.litPkg)
+	for o, cell := range fn.env {
+		fr.env[o] = cell
+	}
+	return m.callBody(fr, "function literal", fn.lit.Type, fn.lit.Body, args)
+}
+
+// callBody binds parameters and named results in fr, runs the body and the deferred calls.
+func (m *c17M) callBody(fr *c17Frame, name string, ft *ast.FuncType, body *ast.BlockStmt, args []c17V) []c17V {
+	m.depth++
+	defer func() { m.depth-- }()
+	if m.depth > 40 {
+		m.unsupported("call depth exceeded in %s", name)
+	}
 	i := 0
-	for _, f := range fd.Type.Params.List {
+	for _, f := range ft.Params.List {
 		if len(f.Names) == 0 {
 			i++
 			continue
@@ -313,8 +334,8 @@ func (m *c17M) callDecl(fi *FuncInfo, recv *c17V, args []c17V) []c17V {
 			i++
 		}
 	}
-	if fd.Type.Results != nil {
-		for _, f := range fd.Type.Results.List {
+	if ft.Results != nil {
+		for _, f := range ft.Results.List {
 			for _, n := range f.Names {
 				o := fr.info.Defs[n]
 				if o == nil {
@@ -326,7 +347,7 @@ func (m *c17M) callDecl(fi *FuncInfo, recv *c17V, args []c17V) []c17V {
 			}
 		}
 	}
-	ctl := m.execList(fr, fd.Body.List)
+	ctl := m.execList(fr, body.List)
 	if ctl != c17Return && len(fr.named) > 0 {
 		fr.results = nil
 	}
@@ -1040,6 +1061,9 @@ func (m *c17M) eval(fr *c17Frame, e ast.Expr) c17V {
 				fn := sel.Obj().(*types.Func)
 				return c17V{k: c17Fun, fn: &c17Fn{static: fn, name: fullName(fn), recv: m.recvFor(fr, e, fn)}}
 			}
+			if fn, ok := sel.Obj().(*types.Func); ok && sel.Kind() == types.MethodExpr && !types.IsInterface(sel.Recv()) {
+				return c17V{k: c17Fun, fn: &c17Fn{static: fn, name: fullName(fn), mexpr: true}}
+			}
 			m.unsupported("method expression %s", types.ExprString(e))
 		}
 		switch o := fr.info.ObjectOf(e.Sel).(type) {
@@ -1116,7 +1140,11 @@ func (m *c17M) eval(fr *c17Frame, e ast.Expr) c17V {
 		}
 		m.rtPanic("interface conversion failed in %s", types.ExprString(e))
 	case *ast.FuncLit:
-		m.unsupported("function literal")
+		env := make(map[types.Object]*c17V, len(fr.env))
+		for o, cell := range fr.env {
+			env[o] = cell
+		}
+		return c17V{k: c17Fun, fn: &c17Fn{name: "function literal", lit: e, litPkg: fr.pkg, env: env}}
 	}
 	m.unsupported("expression %T", e)
 	return c17V{}
@@ -1531,10 +1559,20 @@ func (m *c17M) prepCall(fr *c17Frame, call *ast.CallExpr) func() c17V {
 			if !ok {
 				m.unsupported("method call form %s", types.ExprString(fun))
 			}
-			if _, isSel := info.Selections[sel]; !isSel {
+			sl, isSel := info.Selections[sel]
+			if !isSel {
 				m.unsupported("method expression %s", types.ExprString(fun))
 			}
-			if types.IsInterface(sig.Recv().Type()) {
+			if sl.Kind() == types.MethodExpr {
+				// T.m(recv, args...) / (*T).m(recv, args...)
+				if types.IsInterface(sl.Recv()) {
+					m.unsupported("interface method expression %s", types.ExprString(fun))
+				}
+				target.mexpr = true
+				if fs, ok := info.TypeOf(fun).Underlying().(*types.Signature); ok {
+					sig = fs // the receiver is the first parameter
+				}
+			} else if types.IsInterface(sig.Recv().Type()) {
 				rv := m.eval(fr, sel.X)
 				if rv.typ == nil {
 					m.unsupported("interface method call %s on %s", types.ExprString(fun), rv)
@@ -1616,8 +1654,28 @@ func (m *c17M) invoke(target *c17Fn, args []c17V, sig *types.Signature) c17V {
 	if target.native != nil {
 		return target.native(m, args)
 	}
+	if target.lit != nil {
+		return pack(m.callLit(target, args))
+	}
 	if target.static == nil {
 		m.unsupported("call target %s", target.name)
+	}
+	if target.mexpr {
+		// method expression: the first argument is the receiver
+		if len(args) == 0 {
+			m.unsupported("method expression %s called without a receiver", target.name)
+		}
+		rv := args[0]
+		msig, _ := target.static.Type().(*types.Signature)
+		if msig == nil || msig.Recv() == nil {
+			m.unsupported("method expression %s", target.name)
+		}
+		if _, wantPtr := msig.Recv().Type().(*types.Pointer); !wantPtr && rv.k == c17Ptr {
+			rv = rv.ptr.clone()
+		}
+		target = &c17Fn{static: target.static, name: target.name, recv: &rv}
+		args = args[1:]
+		sig = msig
 	}
 	if nat, ok := m.natives[target.name]; ok {
 		return nat(m, target.recv, args)
@@ -5326,7 +5384,9 @@ func c17CoherentBySim(c *Ctx, m *c17M, fi *FuncInfo, tfT types.Type) (runs int, 
 		}
 		tuples = next
 	}
-	for _, val := range []string{"", "a", "ab", "abc", "a世c", "e\u0301b"} {
+	// the last states are those in which deleting one grapheme joins its neighbours (c17x.go): an incremental
+	// update such as n -= 1 is right on the others and wrong there
+	for _, val := range append([]string{"", "a", "ab", "abc", "a世c", "e\u0301b"}, c17JoinStates...) {
 		cls := c17Clusters(val)
 		for cur := 0; cur <= len(cls); cur++ {
 			for _, args := range tuples {
